@@ -809,6 +809,10 @@ func C15(p *Prog, r *Run) {
 		c.gobPairs()
 	})
 
+	r.Rule("C15.13", "a list restored from a gob stream stays as decoded: neither the decoder nor the encoder hands a list field of the record (or a view of it: a conversion, a sort.Reverse wrapper) to a library function that rearranges or rewrites a list (sort.Sort/Stable/Slice..., slices.Sort*/Reverse/Compact/Delete/Insert/Replace, rand.Shuffle) - the order written is the order read back, and encoding does not rearrange the record it encodes", func() {
+		c.gobListsUntouched()
+	})
+
 	r.Rule("C15.9", "solver model: every model field of the fast solver is saved in one holder field and restored from the same holder field (constructor argument position or later store); modules element-wise; activation types as registry names", func() {
 		c.solverModel()
 	})
